@@ -826,6 +826,13 @@ public:
     {
       return false;
     }
+    // No chunk extension holds CR or LF (RFC 9112 §7.1.1). A line with one in it was cut
+    // at the wrong place: parseChunkedBody ends lines at LF, HttpServer frames them by
+    // CRLF, and the two would take different octets for the chunk data.
+    if (line.find_first_of("\r\n", digits) != std::string::npos)
+    {
+      return false;
+    }
     // Only a chunk extension may follow the digits, with optional BWS before its ';'.
     auto ext = line.find_first_not_of(" \t", digits);
     return digits == line.size() || (ext != std::string::npos && line[ext] == ';');
